@@ -1756,6 +1756,12 @@ class Parallel(Logger):
     def _wait_retrieval(self):
         """Return True if we need to continue retrieving some tasks."""
 
+        # If a task or the iteration over the input failed, the retrieval loop
+        # must run once more to surface the error, even if all the dispatched
+        # tasks have already completed.
+        if self._aborting:
+            return True
+
         # If the input load is still being iterated over, it means that tasks
         # are still on the dispatch waitlist and their results will need to
         # be retrieved later on.
